@@ -421,6 +421,10 @@ func (P) Exec(line string) string {
 			same = bytes.Equal(w.Bytes(), b[:len(b)-rd.Len()])
 		}
 		return fmt.Sprintf("ok %s %s %s %d %s", m.Command(), dump(m, pver), re, rd.Len(), canonTok(same)) + allocTok(al)
+	case "blk":
+		return execBlk(f[2], mustHex(f[3]), strings.Split(f[4], ","))
+	case "utx":
+		return execUtx(f[2], mustHex(f[3]), strings.Split(f[4], ","))
 	case "encrefused":
 		return "refused"
 	case "txbytes":
@@ -488,4 +492,165 @@ func (P) ClassifyMismatch(line, goOut, leanOut string) string {
 		return "F-C08-b"
 	}
 	return ""
+}
+
+// ---------------------------------------------------------------- accessor sequences on btcutil.Block / btcutil.Tx
+
+func txObs(t *btcutil.Tx) string {
+	h, w := t.Hash(), t.WitnessHash()
+	return fmt.Sprintf("%s:%s:%s:%d", hex.EncodeToString(h[:]), hex.EncodeToString(w[:]), b01(t.HasWitness()), t.Index())
+}
+
+func execBlk(ctor string, raw []byte, ops []string) string {
+	var bl *btcutil.Block
+	switch ctor {
+	case "bytes":
+		b, err := btcutil.NewBlockFromBytes(raw)
+		if err != nil {
+			return "err"
+		}
+		bl = b
+	case "reader":
+		rd := bytes.NewReader(raw)
+		b, err := btcutil.NewBlockFromReader(rd)
+		if err != nil || rd.Len() > 0 {
+			return "err"
+		}
+		bl = b
+	case "new", "blockandbytes":
+		var m wire.MsgBlock
+		rd := bytes.NewReader(raw)
+		if err := m.Deserialize(rd); err != nil || rd.Len() > 0 {
+			return "err"
+		}
+		if ctor == "new" {
+			bl = btcutil.NewBlock(&m)
+		} else {
+			bl = btcutil.NewBlockFromBlockAndBytes(&m, append([]byte{}, raw...))
+		}
+	default:
+		return "bad-op"
+	}
+	var out []string
+	for _, op := range ops {
+		switch {
+		case op == "B":
+			b, err := bl.Bytes()
+			if err != nil {
+				out = append(out, "B=err")
+			} else {
+				out = append(out, "B="+hex.EncodeToString(b))
+			}
+		case op == "N":
+			b, err := bl.BytesNoWitness()
+			if err != nil {
+				out = append(out, "N=err")
+			} else {
+				out = append(out, "N="+hex.EncodeToString(b))
+			}
+		case op == "H":
+			h := bl.Hash()
+			out = append(out, "H="+hex.EncodeToString(h[:]))
+		case op == "G":
+			out = append(out, fmt.Sprintf("G=%d", bl.Height()))
+		case op == "L":
+			locs, err := bl.TxLoc()
+			if err != nil {
+				out = append(out, "L=err")
+				break
+			}
+			out = append(out, "L="+strings.Join(mapStr(len(locs), func(i int) string { return fmt.Sprintf("%d:%d", locs[i].TxStart, locs[i].TxLen) }), ";"))
+		case op == "T":
+			txs := bl.Transactions()
+			out = append(out, "T="+strings.Join(mapStr(len(txs), func(i int) string { return txObs(txs[i]) }), ";"))
+		case strings.HasPrefix(op, "S"):
+			n, _ := strconv.ParseInt(op[1:], 10, 32)
+			bl.SetHeight(int32(n))
+			out = append(out, op)
+		case strings.HasPrefix(op, "t"):
+			i, _ := strconv.Atoi(op[1:])
+			t, err := bl.Tx(i)
+			if err != nil {
+				out = append(out, op+"=oor")
+			} else {
+				out = append(out, op+"="+txObs(t))
+			}
+		case strings.HasPrefix(op, "h"):
+			i, _ := strconv.Atoi(op[1:])
+			h, err := bl.TxHash(i)
+			if err != nil {
+				out = append(out, op+"=oor")
+			} else {
+				out = append(out, op+"="+hex.EncodeToString(h[:]))
+			}
+		default:
+			out = append(out, "bad-op")
+		}
+	}
+	return strings.Join(out, "|")
+}
+
+func mapStr(n int, f func(int) string) []string {
+	o := make([]string, n)
+	for i := range o {
+		o[i] = f(i)
+	}
+	return o
+}
+
+func execUtx(ctor string, raw []byte, ops []string) string {
+	var t *btcutil.Tx
+	switch ctor {
+	case "bytes":
+		x, err := btcutil.NewTxFromBytes(raw)
+		if err != nil {
+			return "err"
+		}
+		t = x
+	case "reader":
+		rd := bytes.NewReader(raw)
+		x, err := btcutil.NewTxFromReader(rd)
+		if err != nil || rd.Len() > 0 {
+			return "err"
+		}
+		t = x
+	case "new":
+		var m wire.MsgTx
+		rd := bytes.NewReader(raw)
+		if err := m.Deserialize(rd); err != nil || rd.Len() > 0 {
+			return "err"
+		}
+		t = btcutil.NewTx(&m)
+	default:
+		return "bad-op"
+	}
+	var out []string
+	for _, op := range ops {
+		switch {
+		case op == "H":
+			h := t.Hash()
+			out = append(out, "H="+hex.EncodeToString(h[:]))
+		case op == "W":
+			h := t.WitnessHash()
+			out = append(out, "W="+hex.EncodeToString(h[:]))
+		case op == "X":
+			out = append(out, "X="+b01(t.HasWitness()))
+		case op == "I":
+			out = append(out, fmt.Sprintf("I=%d", t.Index()))
+		case op == "M":
+			var w bytes.Buffer
+			if err := t.MsgTx().Serialize(&w); err != nil {
+				out = append(out, "M=err")
+			} else {
+				out = append(out, "M="+hex.EncodeToString(w.Bytes()))
+			}
+		case strings.HasPrefix(op, "S"):
+			n, _ := strconv.Atoi(op[1:])
+			t.SetIndex(n)
+			out = append(out, op)
+		default:
+			out = append(out, "bad-op")
+		}
+	}
+	return strings.Join(out, "|")
 }
